@@ -351,3 +351,151 @@ contract("specs.ber:lemma_len_long",
                   "hdr_complete(%s)" % _LL, "not indefinite(%s)" % _LL, "val_len(%s) == len(content)" % _LL, "hdr_len(%s) == len(i) + 1 + len(r)" % _LL,
                   "tlv_complete(%s)" % _LL, "len(%s) == hdr_len(%s) + len(content)" % (_LL, _LL), "drop(%s, hdr_len(%s)) == content" % (_LL, _LL),
                   "len_minimal(%s)" % _LL])
+
+# ------------------------------------------------------------------------------------------------ INTEGER writer
+contract("specs.ber:lemma_le_wrap",
+         requires=["0 <= i", "i <= len(a)", "i <= len(b)", "forall(q, 0, i, a[q] == 255 and b[q] == 0)"],
+         ensures=["le(a, i) == pow256(i) - 1", "le(b, i) == 0", "pow256(i) >= 1"], decreases="i")
+contract("specs.ber:lemma_le_increment",
+         requires=["len(a) == len(b)", "0 <= i", "i < n", "n <= len(a)", "forall(q, 0, i, a[q] == 255 and b[q] == 0)", "b[i] == a[i] + 1",
+                   "forall(q, i + 1, n, b[q] == a[q])"],
+         ensures=["le(b, n) == le(a, n) + 1"], decreases="n - i")
+contract("specs.ber:lemma_le_all255",
+         requires=["0 <= n", "n <= len(a)", "forall(q, 0, n, a[q] == 255)"],
+         ensures=["le(a, n) == pow256(n) - 1", "pow256(n) >= 1"], decreases="n")
+
+_K = "1099511627776"      # 2^40 content octets: the size bound under which len(content) < 2^63 is provable
+_T = lambda f, d: "(tag.%s if tag is not None else %s)" % (f, d)
+contract("asn1:_pack_asn1_integer",
+         requires=["implies(tag is not None, tag.tag_number >= 0)", "value < pow256(%s)" % _K, "-value < pow256(%s)" % _K],
+         witness={"c": "b_int"}, witness_sorts={"c": "bytes"},
+         ensures=["len(c) >= 1", "tc(c) == value", "minimal_tc(c)",
+                  "tlv_of(result, %s, %s, %s, c)" % (_T("tag_class", "0"), _T("is_constructed", "False"), _T("tag_number", "2"))],
+         raises={"ValueError": "tag is not None and (tag.tag_class < 0 or tag.tag_class > 3)"},
+         loops={
+             0: dict(ghost_init={"P": "1"}, ghost_update={"P": "256 * P"},
+                     invariant=["value >= 0", "P >= 1", "P == pow256(len(b_int))",
+                                "implies(not is_negative, old(value) == value * P + le(b_int, len(b_int)))",
+                                "implies(is_negative, -old(value) == value * P + P - 1 - le(b_int, len(b_int)))",
+                                "implies(len(b_int) >= 1 and not is_negative, 256 * value + b_int[len(b_int) - 1] > 127)",
+                                "implies(len(b_int) >= 1 and is_negative, 256 * value + (255 - b_int[len(b_int) - 1]) > 128)",
+                                "implies(len(b_int) == 0, value == (-old(value) if is_negative else old(value)))",
+                                "implies(is_negative, old(value) < 0)", "implies(not is_negative, old(value) >= 0)",
+                                "value < pow256(%s - len(b_int))" % _K, "len(b_int) <= %s" % _K,
+                                "le(b_int, len(b_int)) >= 0", "le(b_int, len(b_int)) < P"],
+                     entry_hints=["pow256(0)", "le(b_int, 0)"],
+                     snapshot_each={"prev": "b_int", "pv": "value", "P0": "P"},
+                     body_hints=["len(b_int) == len(prev) + 1", "value == pv // 256",
+                                 "b_int[len(prev)] == (255 - pv % 256 if is_negative else pv % 256)",
+                                 "pow256(len(prev) + 1) == 256 * pow256(len(prev))",
+                                 "pow256(%s - len(prev))" % _K,
+                                 "lemma_le_frame(prev, b_int, len(prev))",
+                                 "le(b_int, len(prev) + 1) == le(prev, len(prev)) + b_int[len(prev)] * P0",
+                                 "lemma_div_step(pv, 256, P0, le(prev, len(prev)))"],
+                     exit_snapshot={"lowdigits": "b_int", "topv": "value", "Pn": "P"},
+                     decreases="value"),
+             1: dict(snapshot={"entry": "b_int"},
+                     invariant=["len(b_int) == len(entry)",
+                                "forall(q, 0, _i1, entry[q] == 255 and b_int[q] == 0)",
+                                "forall(q, _i1, len(b_int), b_int[q] == entry[q])"],
+                     entry_hints=["len(b_int) == len(lowdigits) + 1", "b_int[len(lowdigits)] == 255 - topv",
+                                  "lemma_le_frame(lowdigits, b_int, len(lowdigits))",
+                                  "pow256(len(lowdigits) + 1) == 256 * pow256(len(lowdigits))",
+                                  "le(b_int, len(lowdigits) + 1) == le(lowdigits, len(lowdigits)) + (255 - topv) * Pn",
+                                  "le(b_int, len(b_int)) == pow256(len(b_int)) - 1 + old(value)"],
+                     break_hints=["lemma_le_increment(entry, b_int, idx, len(b_int))",
+                                  "le(b_int, len(b_int)) == pow256(len(b_int)) + old(value)"],
+                     exit_snapshot={"incd": "b_int"},
+                     exit_hints=["lemma_le_all255(entry, len(entry))"]),
+         },
+         bind_calls={"_pack_asn1": "packed"},
+         exit_hints=[
+             "unless incd: lemma_le_prefix(lowdigits, seq1(topv % 256), len(lowdigits))",
+             "unless incd: le(cat(lowdigits, seq1(topv % 256)), len(lowdigits) + 1) == le(cat(lowdigits, seq1(topv % 256)), len(lowdigits)) + (topv % 256) * pow256(len(lowdigits))",
+             "unless incd: le(b_int__before_reverse, len(b_int)) == value",
+             "using incd: lemma_le_prefix(incd, seq1(255), len(incd))",
+             "using incd: le(cat(incd, seq1(255)), len(incd) + 1) == le(cat(incd, seq1(255)), len(incd)) + 255 * pow256(len(incd))",
+             "using incd: pow256(len(incd) + 1) == 256 * pow256(len(incd))",
+             "using incd: implies(len(b_int__before_reverse) == len(incd) + 1, b_int__before_reverse[len(incd)] == 255)",
+             "using incd: implies(len(b_int__before_reverse) == len(incd) + 1, le(b_int__before_reverse, len(incd) + 1) == le(b_int__before_reverse, len(incd)) + 255 * pow256(len(incd)))",
+             "using incd: le(b_int__before_reverse, len(b_int)) == pow256(len(b_int)) + value",
+             "using incd: b_int__before_reverse[len(b_int) - 1] >= 128",
+             "lemma_be_le_reverse(b_int__before_reverse, b_int, len(b_int))", "pow256(0)", "le(b_int__before_reverse, 0)",
+             "b_int[0] == b_int__before_reverse[len(b_int) - 1]",
+             "implies(len(b_int) >= 2, b_int[1] == b_int__before_reverse[len(b_int) - 2])",
+         ])
+
+contract("specs.ber:lemma_le_prefix", requires=["k <= len(s)"], ensures=["le(cat(s, r), k) == le(s, k)"], decreases="k if k >= 0 else 0")
+
+# ------------------------------------------------------------------------------------------------ remaining writers
+_TAGREQ = ["implies(tag is not None, tag.tag_number >= 0)"]
+_TAGERR = {"ValueError": "tag is not None and (tag.tag_class < 0 or tag.tag_class > 3)"}
+contract("asn1:_pack_asn1_boolean",
+         requires=_TAGREQ,
+         ensures=["tlv_of(result, %s, %s, %s, seq1(255 if value else 0))" % (_T("tag_class", "0"), _T("is_constructed", "False"), _T("tag_number", "1"))],
+         raises=_TAGERR)
+contract("asn1:_pack_asn1_octet_string",
+         params={"b_data": "bytes"},
+         requires=_TAGREQ + ["len(b_data) < 9223372036854775808"],
+         ensures=["tlv_of(result, %s, %s, %s, b_data)" % (_T("tag_class", "0"), _T("is_constructed", "False"), _T("tag_number", "4"))],
+         raises=_TAGERR)
+contract("asn1:_pack_asn1_enumerated",
+         requires=_TAGREQ + ["value < pow256(%s)" % _K, "-value < pow256(%s)" % _K],
+         witness={"c": "c"}, witness_sorts={"c": "bytes"}, bind_witness={"_pack_asn1_integer.c": "c"},
+         ensures=["len(c) >= 1", "tc(c) == value", "minimal_tc(c)",
+                  "tlv_of(result, %s, %s, %s, c)" % (_T("tag_class", "0"), _T("is_constructed", "False"), _T("tag_number", "10"))],
+         raises=_TAGERR)
+
+# ------------------------------------------------------------------------------------------------ ASN1Writer methods
+_WMOD = ["self._data"]
+contract("asn1:ASN1Writer.write_boolean",
+         requires=_TAGREQ, modifies=_WMOD, raises=_TAGERR, on_raise=["self._data == old(self._data)"],
+         witness={"w": "w"}, witness_sorts={"w": "bytes"}, bind_calls={"_pack_asn1_boolean": "w"},
+         ensures=["self._data == old(self._data) + w",
+                  "tlv_of(w, %s, %s, %s, seq1(255 if value else 0))" % (_T("tag_class", "0"), _T("is_constructed", "False"), _T("tag_number", "1"))])
+contract("asn1:ASN1Writer.write_octet_string",
+         params={"value": "bytes"},
+         requires=_TAGREQ + ["len(value) < 9223372036854775808"], modifies=_WMOD, raises=_TAGERR, on_raise=["self._data == old(self._data)"],
+         witness={"w": "w"}, witness_sorts={"w": "bytes"}, bind_calls={"_pack_asn1_octet_string": "w"},
+         ensures=["self._data == old(self._data) + w",
+                  "tlv_of(w, %s, %s, %s, value)" % (_T("tag_class", "0"), _T("is_constructed", "False"), _T("tag_number", "4"))])
+for _m, _n in (("write_integer", "2"), ("write_enumerated", "10")):
+    contract("asn1:ASN1Writer.%s" % _m,
+             requires=_TAGREQ + ["value < pow256(%s)" % _K, "-value < pow256(%s)" % _K], modifies=_WMOD, raises=_TAGERR,
+             on_raise=["self._data == old(self._data)"],
+             witness={"w": "w", "c": "c"}, witness_sorts={"w": "bytes", "c": "bytes"},
+             bind_calls={"_pack_asn1_integer": "w", "_pack_asn1_enumerated": "w"},
+             bind_witness={"_pack_asn1_integer.c": "c", "_pack_asn1_enumerated.c": "c"},
+             ensures=["self._data == old(self._data) + w", "len(c) >= 1", "tc(c) == value", "minimal_tc(c)",
+                      "tlv_of(w, %s, %s, %s, c)" % (_T("tag_class", "0"), _T("is_constructed", "False"), _T("tag_number", _n))])
+contract("asn1:ASN1Writer.push_sequence", inline=True)
+contract("asn1:ASN1Writer.push_set", inline=True)
+contract("asn1:ASN1Writer.__enter__", inline=True)
+contract("asn1:ASN1Writer.__exit__",
+         params={"exc_type": "const:None", "exc_val": "const:None", "exc_tb": "const:None"},
+         requires=["implies(self._tag is not None, self._tag.tag_number >= 0 and self._tag.tag_class >= 0 and self._tag.tag_class <= 3)",
+                   "len(self._data) < 9223372036854775808"],
+         witness={"w": "w"}, witness_sorts={"w": "bytes"}, bind_calls={"_pack_asn1": "w"},
+         ensures=["implies(self._parent is None or self._tag is None, True)",
+                  "implies(self._parent is not None and self._tag is not None, self._parent._data == old(self._parent._data) + w and "
+                  "tlv_of(w, self._tag.tag_class, self._tag.is_constructed, self._tag.tag_number, self._data))",
+                  "self._data == old(self._data)"],
+         raises={}, modifies=["self._parent._data"])
+contract("asn1:ASN1Writer.get_data",
+         requires=[], ensures=["result == self._data", "self._parent is None", "self._tag is None"],
+         raises={"TypeError": "self._parent is not None or self._tag is not None"}, modifies=[])
+
+# ------------------------------------------------------------------------------------------------ C07 round-trip lemmas over the contracts
+_RTV = "cat(s, rest)"
+contract("specs.ber:lemma_tlv_roundtrip",
+         requires=["tlv_of(s, tag_class, constructed, number, content)"],
+         ensures=["tlv_complete(%s)" % _RTV, "id_class(%s) == tag_class" % _RTV, "id_constructed(%s) == constructed" % _RTV,
+                  "id_number(%s) == number" % _RTV, "hdr_len(%s) == hdr_len(s)" % _RTV, "val_len(%s) == len(content)" % _RTV,
+                  "content_of(%s) == content" % _RTV, "rest_of(%s) == rest" % _RTV])
+contract("specs.ber:lemma_integer_roundtrip",
+         requires=["tlv_of(w, tag_class, constructed, number, c)", "len(c) >= 1", "tc(c) == value"],
+         ensures=["tlv_complete(cat(w, rest))", "tc(content_of(cat(w, rest))) == value", "rest_of(cat(w, rest)) == rest",
+                  "id_class(cat(w, rest)) == tag_class", "id_number(cat(w, rest)) == number", "id_constructed(cat(w, rest)) == constructed"])
+contract("specs.ber:lemma_boolean_roundtrip",
+         requires=["tlv_of(w, tag_class, constructed, number, seq1(255 if value else 0))"],
+         ensures=["(not (len(content_of(cat(w, rest))) == 1 and content_of(cat(w, rest))[0] == 0)) == value", "rest_of(cat(w, rest)) == rest"])
